@@ -757,7 +757,11 @@ def vmake_symbol(node, context):
 
 
 def parse(x):
-    return evaluate(parser(x))
+    tree = parser(x)
+    if tree is None:
+        location = opparse.Location(x, "<string>", 0, len(x))
+        raise location.syntax_error("Invalid syntax: empty expression")
+    return evaluate(tree)
 
 
 def _find_eval_env(s, fr, skip):
